@@ -256,6 +256,19 @@ Proof.
 Qed.
 End Ret.
 
+(* a skippable frame is not an LZ4 frame of the specification *)
+Lemma skinv_not_valid bdec dict p s g res :
+  skinv p s -> frame_decode bdec false dict (p ++ g) = Some res -> False.
+Proof.
+  intros (L4 & M & _) G. unfold frame_decode in G.
+  destruct (take 4 (p ++ g)) as [[mg r]|] eqn:T; [|discriminate].
+  destruct (le_val mg =? MAGIC) eqn:E; [|discriminate]. apply Z.eqb_eq in E.
+  destruct p as [|a [|b [|c [|d p']]]]; try (unfold zlen in L4; cbn in L4; lia).
+  cbn in T. inversion T; subst mg r. clear T G.
+  unfold rd32, ztake in M. change (firstn (Z.to_nat 4) (a :: b :: c :: d :: p')) with [a; b; c; d] in M.
+  rewrite E in M. vm_compute in M. discriminate.
+Qed.
+
 (* ---- one call at a CInv position of a valid frame ---- *)
 Section Call.
 Variable bdec : list byte -> list byte -> option (list byte).
@@ -266,22 +279,30 @@ Theorem call_hint_within_frame : forall s src cap o p O g res l' h,
   frame_decode bdec false dict (p ++ src ++ g) = Some res ->
   run bdec (call_fuel src) o (mkL (set_skip s (d_skip s || o_skip o)) src 0 [] cap) = (l', FStop h) ->
   0 < h ->
-  d_stage (l_s l') <> StoreFrameHeader -> in_skip (d_stage (l_s l')) = false ->
+  d_stage (l_s l') <> StoreFrameHeader ->
   snd (decompress bdec s src cap o) = mkR (l_used l') (zlen (l_out l')) (l_out l') h false /\
   h <= zlen src + zlen g - l_used l'.
 Proof.
-  intros s src cap o p O g res l' h Ho Hwf HB Hb Hc G HR Hh Hst Hsk.
+  intros s src cap o p O g res l' h Ho Hwf HB Hb Hc G HR Hh Hst.
   pose proof (call_chunk bdec false dict s src cap o p O Ho Hwf HB Hb Hc) as CC. cbv zeta in CC.
   unfold decompress in *. rewrite HR in *. cbn [fst snd r_ret r_out r_consumed] in CC.
   split; [reflexivity|].
   destruct (CC ltac:(right; exists g, res; exact G)) as [_ CCp].
   destruct (CCp ltac:(lia)) as (x & rest & E1 & E2 & Hwf' & HH).
   replace (h =? 0) with false in HH by lia.
-  destruct (run_hint bdec _ _ _ _ _ HR) as [Z0 | [Sk | Eh]]; [lia|congruence|].
+  assert (G' : frame_decode bdec false dict ((p ++ x) ++ rest ++ g) = Some res).
+  { rewrite <- app_assoc. rewrite (app_assoc x rest g), <- E1. exact G. }
+  destruct (run_hint bdec _ _ _ _ _ HR) as [Z0 | [Sk | Eh]]; [lia| |].
+  { (* a skippable-frame stage: impossible on a frame the specification accepts *)
+    exfalso. destruct HH as [C | (_ & _ & St & _)]; [|rewrite St in Sk; discriminate].
+    destruct C as [Hs _ _ _ _ _ | Hs _ _ _ _ _ _ | d maxb Hs _ _ _ | d maxb Hs _ _
+                  | d maxb t Hs _ _ _ _ | d maxb acc0 data1 Hs _ _ _ _ _ _
+                  | d maxb acc0 data t Hs _ _ _ _ _ _ _ _ | d maxb n Hs _ _ _ _
+                  | d maxb n t Hs _ _ _ _ _ _ | d maxb acc0 Hs _ _ _ _ | d maxb Hs _ _
+                  | d maxb t Hs _ _ _ _ _ _ | _ HS]; try (rewrite Hs in Sk; discriminate).
+    exact (skinv_not_valid bdec dict _ _ _ _ HS G'). }
   destruct HH as [C | (Pn & _ & AS)].
   - rewrite Eh.
-    assert (G' : frame_decode bdec false dict ((p ++ x) ++ rest ++ g) = Some res).
-    { rewrite <- app_assoc. rewrite (app_assoc x rest g), <- E1. exact G. }
     pose proof (hint_state_bound bdec dict (p ++ x) _ (l_s l') (rest ++ g) res C Hwf' G' Hst) as B.
     rewrite zlen_app in B. rewrite E1, zlen_app. lia.
   - (* still at the very start of the frame: the stage is GetFrameHeader, which never stops with a hint *)
